@@ -12,7 +12,9 @@ LEVEL = 'fault_enumeration'
 RULE = ('evaluations = injected allocation failures: for every (C container '
         'reached by a generated history at node sizes 2..4, operation that '
         'can allocate: insert into an empty container, insert growing a '
-        'leaf, leaf / interior / root split, update, add, |=, union / '
+        'leaf, leaf / interior / root split, update, add, |= -= ^= &= '
+        '(list and container operands, the operand stored and evicted in '
+        'half of the stored cases), union / '
         'intersection / difference, weightedUnion, multiunion, '
         '_p_resolveConflict, __setstate__ of leaves and trees, fsBucket '
         'fromString) the allocations of a clean run are counted with the '
@@ -37,10 +39,11 @@ QUICK_FAMS = ['II', 'OO', 'LF', 'fs', 'QO', 'OI', 'UU', 'IO']
 
 def must_see(tier):
     m = {'failures-injected': 1500, 'outcome:MemoryError': 1000,
-         'failures-injected:stored': 300,
+         'failures-injected:stored': 300, 'stored-operand': 20,
          'outcome:unchanged': 300, 'sort-buffer-fallback': 1}
     for op in ('insert-empty', 'insert-grow', 'insert-split', 'update',
-               'ior', 'fn:union', 'fn:difference', 'multiunion', 'resolve',
+               'ior', 'isub', 'ixor', 'iand', 'ior-container',
+               'fn:union', 'fn:difference', 'multiunion', 'resolve',
                'setstate-leaf', 'setstate-tree', 'setstate-existing',
                'weightedUnion',
                'fromString'):
@@ -111,6 +114,8 @@ def run_container(fam, kind, rng, rec, ci, arm, count):
     # operation: the allocations of the ghost loads (node vectors in
     # __setstate__) then fail INSIDE the operation that triggered the load
     stored = [ci % 3 == 1]
+    store_other = ci % 2 == 1
+    okind = rng.choice(setops.CONTAINER_KINDS)
 
     def rebuild():
         arm(0)
@@ -124,6 +129,18 @@ def run_container(fam, kind, rng, rec, ci, arm, count):
             conn = minidb.Connection(minidb.Storage(), 'c')
             conn.log_events = False
             conn.add(c)
+            o = _OTHER[0]
+            if store_other and o is not None and \
+                    getattr(o, '_p_jar', 1) is None and len(o):
+                # the OTHER operand lives in the database too and is a ghost
+                # when the operation starts: its loads fail inside the call
+                wo = walker.walk(o, okind in ('Bucket', 'BTree')) \
+                    if okind in ('BTree', 'TreeSet') else None
+                if wo is None or not wo.inline_nonroot:
+                    conn.add(o)
+                    rec.ev('stored-operand')
+                del wo
+            del o
             conn.commit()
             conn.cache.minimize()
             _CONN[0] = conn
@@ -238,11 +255,16 @@ def run_container(fam, kind, rng, rec, ci, arm, count):
             ops.append((nm_, fn_, [before], None))
     # module-level functions: the container is only an operand
     okeys = rng.sample(uni, min(len(uni), rng.randint(1, 10)))
-    okind = rng.choice(setops.CONTAINER_KINDS)
+
+    oseed = rng.getrandbits(48)
 
     def other():
+        # (the same shape every time: the allocations of its loads are
+        # counted in the clean run and failed one by one afterwards)
+        import random
         arm(0)
-        o, _ = setops.make_container(fam, okind, impl, okeys, vals, rng)
+        o, _ = setops.make_container(fam, okind, impl, okeys, vals,
+                                     random.Random(oseed))
         return o
     bk = set(base_keys)
     for fname, wk in (('union', bk | set(okeys)),
@@ -254,6 +276,27 @@ def run_container(fam, kind, rng, rec, ci, arm, count):
         def chk(r, wk=wk):
             return list(r.keys()) == sort_keys(list(wk))
         ops.append(('fn:' + fname, run, [before], chk))
+    if not is_mapping:
+        # the in-place operators with a container operand: deletions and
+        # toggles are applied key by key in the operand's (ascending) order
+        oks = sort_keys(list(okeys))
+        bl = list(before)
+
+        def minus_set(ks):
+            return [x for x in bl if x not in ks]
+
+        def toggled(ks):
+            return sort_keys(list(set(bl) ^ set(ks)))
+        ops.append(('isub', lambda c: c.__isub__(_OTHER[0]),
+                    [minus_set(set(oks[:i])) for i in range(len(oks) + 1)],
+                    None))
+        ops.append(('ixor', lambda c: c.__ixor__(_OTHER[0]),
+                    [toggled(oks[:i]) for i in range(len(oks) + 1)], None))
+        ops.append(('iand', lambda c: c.__iand__(_OTHER[0]),
+                    [bl, [x for x in bl if x in set(oks)]], None))
+        ops.append(('ior-container', lambda c: c.__ior__(_OTHER[0]),
+                    [sort_keys(list(set(bl) | set(oks[:i])))
+                     for i in range(len(oks) + 1)], None))
     if fam.has_weighted and base_keys:
         ops.append(('weightedUnion',
                     lambda c: fam.fn('weightedUnion', impl)(c, _OTHER[0]),
@@ -370,12 +413,22 @@ def run_container(fam, kind, rng, rec, ci, arm, count):
                     del e
             finally:
                 try:
+                    reached = count()
+                except SystemError:
+                    reached = n
+                try:
                     arm(0)
                 except SystemError:
                     # the operation returned normally but left its error
                     # pending: the next C call trips over it
                     arm(0)
                     out = 'returned-with-error-pending'
+            if out == 'ok' and reached < n:
+                # (the run needed fewer allocations than the clean one: the
+                # armed failure was never reached)
+                rec.ev('fault-not-reached')
+                del res, c
+                continue
             rec.evaluations += 1
             rec.ev('failures-injected')
             rec.ev('fault:' + name)
@@ -456,11 +509,19 @@ def run_container(fam, kind, rng, rec, ci, arm, count):
                     solo = (dk_ is not None and w0 is not None and any(
                         len(lk) == 1 and eq(lk[0], dk_)
                         for lk in w0.leaf_keys))
+                    if name in ('isub', 'ixor', 'iand') and w0 is not None \
+                            and len(w0.leaf_keys) > 1:
+                        # an in-place operator deleting key after key from a
+                        # stored multi-leaf tree: some leaf loses its last
+                        # key on the way
+                        solo = True
+                        dk_ = None
                     try:
                         # (iteration follows the damaged chain: ask by key)
                         others = [(x[0] if is_mapping else x)
                                   for x in allowed[-1]]
-                        gone = dk_ not in c and all(k_ in c for k_ in others)
+                        gone = dk_ is None or (
+                            dk_ not in c and all(k_ in c for k_ in others))
                     except Exception:
                         gone = False
                     if stored[0] and solo and gone and out == 'MemoryError' \
@@ -491,6 +552,13 @@ def run_container(fam, kind, rng, rec, ci, arm, count):
                 del c
                 continue
             if not any(eq(got, a) for a in allowed):
+                if name == 'iand' and out == 'MemoryError':
+                    # F51: C '&=' clears the set and re-inserts the survivors;
+                    # an allocation failing in the re-insertion leaves the
+                    # set holding only the survivors inserted so far
+                    surv = allowed[-1]
+                    if len(got) < len(surv) and eq(got, surv[:len(got)]):
+                        d['finding'] = 'F51'
                 rec.violation('partial-change-after-allocation-failure',
                               observed=brief(got, 300),
                               allowed=brief(allowed[:3], 400), **d)
